@@ -194,7 +194,8 @@ theorem cubicCurve_FREE_ok (a b c d : K) (mid : List K) (tol rt atl : K) (htol :
       (a :: b :: (mid ++ [c, d])).getD i 0 + tol ≤ (a :: b :: (mid ++ [c, d])).getD j 0)
     (x : Mat K) (m : ℕ) (hxs : x.size = mid.length + 4 ∧ ∀ i, i < mid.length + 4 → (x.getD i #[]).size = m)
     (tg : Option (Mat K)) :
-    ∃ cp, cubicCurve bFREE tol rt atl x (a :: b :: (mid ++ [c, d])) tg = .ok (freeBasis a d mid, cp) := by
+    ∃ cp, cubicCurve bFREE tol rt atl x (a :: b :: (mid ++ [c, d])) tg = .ok (freeBasis a d mid, cp) ∧
+      cp.size = mid.length + 4 ∧ ∀ i, i < mid.length + 4 → (cp.getD i #[]).size = m := by
   set t := a :: b :: (mid ++ [c, d]) with ht
   have hv := freeBasis_valid a b c d mid tol hgap htol
   have hnf := freeBasis_numFunctions a d mid
@@ -239,7 +240,8 @@ theorem cubicCurve_FREE_ok (a b c d : K) (mid : List K) (tol rt atl : K) (htol :
   rw [hnr] at hL
   obtain ⟨cp, hcp⟩ := solveC_complete (colloc (freeBasis a d mid) tol t 0) x (mid.length + 4) m hshape hxs
     (fun i l => Ni.get i l) (fun i j hi hj => hL i hi j hj)
-  refine ⟨cp, ?_⟩
+  obtain ⟨sh1, sh2⟩ := solveC_shape (mid.length + 4) m hshape hxs hcp
+  refine ⟨cp, ?_, sh1, sh2⟩
   unfold cubicCurve
   simp only [hsys, bind, Except.bind, pure, Except.pure]
   rw [if_neg (by rw [size_colloc, htl, hnf, hxs.1]; simp), hcp]
